@@ -9,6 +9,9 @@ mod gen;
 mod p_c20;
 mod p_entropy;
 mod p_resolver;
+mod p_stage;
+mod p_wire;
+mod reader;
 mod props;
 mod rsim;
 mod supervise;
@@ -61,6 +64,17 @@ fn main() {
                 .unwrap_or_else(|| vec!["C03".into()]);
             let refs: Vec<&str> = props.iter().map(|s| s.as_str()).collect();
             supervise::selftest(&refs, n)
+        }
+        Some("tir") => {
+            // debug: print the lowered TIR of one tx of a source file
+            let src = std::fs::read_to_string(args.get(2).expect("file")).expect("read");
+            let l = front::lower_all(&src).expect("front end");
+            for (k, v) in l {
+                if args.get(3).map(|x| x == &k).unwrap_or(true) {
+                    println!("== {k}\n{v:#?}");
+                }
+            }
+            0
         }
         Some("show") => {
             // show one world's expansion
